@@ -168,7 +168,7 @@ def checks():
     return [
         HypCheck(
             'programs', lambda: gen.programs(), run_case,
-            budget={'quick': (16, 110), 'thorough': (16, 12000)},
+            budget={'quick': (16, 220), 'thorough': (16, 12000)},
             rule='the same program generator as C01; writer bytes compared '
                  'byte for byte with an independent reference serializer and '
                  'walked by a structural validator (ASCII headers, grammar, '
